@@ -624,8 +624,8 @@ pub fn witness_max_response(
     // boundary, a not-tightest extrapolation) then shows as a bound no schedule attains.
     let mut dense: Vec<Vec<u64>> = Vec::with_capacity(n);
     for t in 0..n {
-        let dd = doc_dense(&ts.tasks[t].arr, horizon, crate::unisched::KMAX)?;
-        if dd.len() >= crate::unisched::KMAX && dd.last().copied().unwrap_or(0) < l + 12 {
+        let dd = doc_dense(&ts.tasks[t].arr, horizon, ts.kmax())?;
+        if dd.len() >= ts.kmax() && dd.last().copied().unwrap_or(0) < l + 12 {
             return None; // job cap reached inside the busy window: cannot decide
         }
         // the documented pattern must be admissible for the library's curve (otherwise the
@@ -952,10 +952,31 @@ fn tight_check(ts: &TaskSet, variant: Variant, task: usize) -> Option<(u64, u64)
 }
 
 fn c18_item(root: u64, k: u64, acc: &mut Acc, note: &dyn Fn(&str), fps: &(Distinct, Distinct)) {
+    use crate::desc::ArrDesc;
     let mut rng = Rng::new(Rng::run_seed(root, "C18", k));
     let mut in_rng = rng.split("input");
-    let sw = exact_swarm(&mut in_rng);
-    let mut ts = random_taskset(&mut in_rng, &sw);
+    // one input in 150: a long busy window whose decisive offset sits deep in the search space
+    // (all models exact: the jittered periodic ones are written as Sporadic)
+    let mut ts = if rng.split("coincidence").chance(1, 150) {
+        acc.counters.inc("inputs_late_coincidence");
+        let mut ts = crate::gen::coincidence_taskset(&mut in_rng);
+        for t in ts.tasks.iter_mut() {
+            let exact = match &t.arr {
+                ArrDesc::Jittered(inner, j) | ArrDesc::Propagated(inner, j) => match **inner {
+                    ArrDesc::Periodic(p) => Some(ArrDesc::Sporadic(p, *j)),
+                    _ => None,
+                },
+                _ => None,
+            };
+            if let Some(a) = exact {
+                t.arr = a;
+            }
+        }
+        ts
+    } else {
+        let sw = exact_swarm(&mut in_rng);
+        random_taskset(&mut in_rng, &sw)
+    };
     note(&format!(
         "C18 input#{} (preparing) tasks=[{}]",
         k,
